@@ -24,6 +24,7 @@ PROP = {  # commit subject prefix -> (property, what failed)
     "fix: an escaped backslash does not escape": ("C02", "'\"\\\\\"\"' (escaped backslash before the closing quote) lexed past its end; emitted literal unterminated"),
     "fix: a parameter declared nullable accepts None": ("C06", "'def f(a: Int?)' refused f(None) and f(n) with n: Int? in every context (162 over-rejections)"),
     "fix: the classes caught by a handle are no longer caught": ("C08", "an unhandled, undeclared raise after a complete handle for the same class, or inside one of its arms, was accepted (226 cases)"),
+    "fix: blank and comment lines are allowed before else": ("C14", "an empty / whitespace-only / comment line before 'else', before the first arm or between arms of match/handle made a valid program unparsable (343 of 12 422 trivia placements)"),
 }
 def main():
     data = json.load(open(P)) if os.path.exists(P) else {"findings": []}
